@@ -54,6 +54,8 @@ func main() {
 		os.Exit(2)
 	}
 	st := &Stats{Family: famName, Seed: *seed, Dist: map[string]int{}, KnownChecks: map[string]int{}, Shards: *shards, Violations: []Violation{}, Samples: []any{}}
+	fuzzOutDir = *out
+	_ = os.MkdirAll(*out, 0o755)
 	cases, replays := fam.Run(NewRng(*seed), *n, st, *param)
 	st.Cases = len(cases)
 	if err := writeCases(*out, fam, cases, replays, *shards); err != nil {
